@@ -282,11 +282,34 @@ static struct region *reg_find(const void *p)
 			return &regs[i];
 	return NULL;
 }
+/* every block handed to the library is followed by a canary: a store (or the load of a stored-back value) past the size the
+ * library asked for is a heap overflow even when the C allocator happens to round the request up */
+#define CANARY 64
+static void canary_set(void *p, size_t size) { memset((char *) p + size, 0xC5, CANARY); }
+static int canary_bad(const struct region *r)
+{
+	size_t i;
+	for (i = 0; i < CANARY; i++)
+		if ((unsigned char) r->p[r->bytes + i] != 0xC5) return 1;
+	return 0;
+}
+static void canary_check_all(const char *when)
+{
+	int i;
+	pthread_mutex_lock(&reg_mx);
+	for (i = 0; i < nreg; i++)
+		if (regs[i].live && canary_bad(&regs[i])) {
+			pthread_mutex_unlock(&reg_mx);
+			ORACLE("heap overflow: the library wrote past the end of a block of %zu bytes it had allocated (%s; %s)", regs[i].bytes, when, cur_op);
+			die_oracle();
+		}
+	pthread_mutex_unlock(&reg_mx);
+}
 static void *r_malloc(void *st, size_t size)
 {
-	void *p = malloc(size);
+	void *p = malloc(size + CANARY);
 	(void) st;
-	if (p) reg_add(p, size, 1, 0);
+	if (p) { canary_set(p, size); reg_add(p, size, 1, 0); }
 	return p;
 }
 static volatile int park_big_calloc;	/* section F3: park the resize worker at its first bucket allocation of >= 8192 nodes */
@@ -301,8 +324,8 @@ static void *r_calloc(void *st, size_t nmemb, size_t size)
 		sem_wait(&park_release);
 	}
 	if (!in_mm_alloc && fail_next_calloc) { fail_next_calloc = 0; return NULL; }
-	p = calloc(nmemb, size);
-	if (p) reg_add(p, nmemb * size, nmemb, in_mm_alloc);
+	p = calloc(1, nmemb * size + CANARY);
+	if (p) { canary_set(p, nmemb * size); reg_add(p, nmemb * size, nmemb, in_mm_alloc); }
 	if (in_mm_alloc) { cur_callocs++; cur_nmemb = nmemb; }
 	return p;
 }
@@ -316,7 +339,8 @@ static void *r_aligned(void *st, size_t al, size_t size)
 {
 	void *p;
 	(void) st;
-	if (posix_memalign(&p, al, size)) return NULL;
+	if (posix_memalign(&p, al, size + CANARY)) return NULL;
+	canary_set(p, size);
 	reg_add(p, size, 1, 0);
 	return p;
 }
@@ -334,6 +358,11 @@ static void r_free(void *st, void *ptr)
 	if (!r->live) {
 		pthread_mutex_unlock(&reg_mx);
 		ORACLE("double free (%s)", cur_op); die_oracle();
+	}
+	if (canary_bad(r)) {
+		pthread_mutex_unlock(&reg_mx);
+		ORACLE("heap overflow: the library wrote past the end of a block of %zu bytes it had allocated (seen at free; %s)", r->bytes, cur_op);
+		die_oracle();
 	}
 	r->live = 0;
 	live_regions--;
@@ -595,6 +624,7 @@ static void run_pending(struct cds_lfht *ht_or_null)
 
 static void destroy_table(struct cds_lfht *ht)
 {
+	canary_check_all("before destroy");
 	int rc, auto_rs = ht->flags & CDS_LFHT_AUTO_RESIZE;
 	nev = 0;
 	ev_suppress_rl = 1;
@@ -1147,6 +1177,37 @@ static void sec_auto(int thorough)
 	quarantine_release();
 }
 
+/* Section A2: header / chunk-pointer storage of every allocator when the table reaches its top order: min_alloc 1 and max 128 or 256
+ * give more chunk pointers than fit the padding of struct cds_lfht (the chunk allocator sizes its header by nr_chunks) */
+static void sec_header_bounds(void)
+{
+	static const unsigned long maxes[3] = { 128, 256, 1024 };
+	static const unsigned long reqs[6] = { 100, 128, 1000, ~0UL, 64, 1 };
+	int kind, m, q;
+	printf("# section A2: allocator header bounds at the top order\n");
+	for (kind = 0; kind < 3; kind++) for (m = 0; m < 3; m++) {
+		struct cds_lfht *ht;
+		unsigned long k;
+		quiet = 1;
+		ht = new_table(kind, 1, 1, maxes[m], 0);
+		snprintf(cur_op_buf, sizeof cur_op_buf, "%s table min_alloc=1 max=%lu grown to its top order", kname[kind], maxes[m]);
+		cur_op = cur_op_buf;
+		for (k = 0; k < 200; k++) do_add(ht, k);
+		for (q = 0; q < 6; q++) {
+			wd_arm(30000);
+			cds_lfht_resize(ht, reqs[q]);
+			wd_disarm();
+			canary_check_all("after cds_lfht_resize");
+			chk_tag = "# a2chk"; check_keys(ht, 200); chk_tag = "chk";
+		}
+		for (k = 0; k < 200; k++) do_del(ht, k);
+		urcu_memb_synchronize_rcu();
+		destroy_table(ht);
+		quiet = 0;
+		quarantine_release();
+	}
+}
+
 /* Section E2: a table WITHOUT CDS_LFHT_AUTO_RESIZE (flags 0 and ACCOUNTING only) never resizes by itself and never queues
  * resize work, whatever its node count does (the counter passes powers of two >= 1024 * #split counters both ways). */
 static void sec_noauto(void)
@@ -1448,7 +1509,7 @@ int main(int argc, char **argv)
 	CPU_ZERO(&cs); CPU_SET(sched_getcpu() >= 0 ? sched_getcpu() : 0, &cs);
 	(void) sched_setaffinity(0, sizeof cs, &cs);
 	if (!*only || strchr(only, 'C')) sec_e2e(thorough);		/* first: directed requests of the property */
-	if (!*only || strchr(only, 'A')) { sec_helpers(thorough); sec_mm(thorough); sec_partition(thorough); }
+	if (!*only || strchr(only, 'A')) { sec_helpers(thorough); sec_mm(thorough); sec_partition(thorough); sec_header_bounds(); }
 	if (!*only || strchr(only, 'B')) sec_lazy(thorough);
 	if (!*only || strchr(only, 'D')) sec_big(thorough);
 	if (!*only || strchr(only, 'F')) { sec_destroy(thorough); sec_destroy_attr(); }
